@@ -489,6 +489,10 @@ def rules(ck, P):
             for y in ir.walk_nodes(b["body"]):
                 if y.get("src", "").startswith("format!(") and "{{z}}/{{x}}/{{y}}" in y["src"] and "self.prefix" in y["src"]:
                     ok3 = True
+        ss = [y for y in ir.walk_nodes(b["body"]) if y.get("k") == "mcall" and (ir.callee(y) or "").endswith("TileJSON::set_string") and len(y.get("a", ())) == 2]
+        keys_first = all(ir.const_eval_str(y["a"][0]) in ("type", "name", "format") and ir.const_eval_str(y["a"][1]) is None for y in ss)
+        ck.check(len(ss) == 3 and keys_first and {ir.const_eval_str(y["a"][0]) for y in ss} == {"type", "name", "format"}, "R-TILESJSON", b["q"] + "|strings",
+                 "type / name / format are set under their own key (constant key first, computed value second)", "tiles.json string members are not set as (key, value): %s" % [(ir.const_eval_str(y["a"][0]), ir.const_eval_str(y["a"][1])) for y in ss], ir.loc(b))
         ck.check(ok1 and ok2 and ok3, "R-TILESJSON", b["q"], "tiles.json = reader's TileJSON clone, narrowed by the reader's coverage, tiles = [prefix + \"{z}/{x}/{y}\"]",
                  "tiles.json assembly: starts from reader doc=%s, narrowed=%s, tiles template=%s" % (ok1, ok2, ok3), ir.loc(b))
 
